@@ -23,7 +23,8 @@ def plan(tier):
                 'operations; after each call the frozen attributes of every object, the untouched '
                 'objects, and the single permitted change on the target are checked; a cell is '
                 '(operation form, attribute, index class, object kind, outcome)',
-        'min_monitor': {'calls_checked': 1500, 'successful_changes_checked': 100, 'failed_calls_checked': 500},
+        'min_monitor': {'calls_checked': 1500, 'successful_changes_checked': 100, 'failed_calls_checked': 500,
+                        'calls_followed_by_a_committing_item': 150},
         'assumptions': ['names are written with type Uninterpreted Text String here; the name-type '
                         'round trip is C05\'s concern',
                         'snapshots are taken by GetAttributes as the owner under KMIP 1.4 plus the raw tables'],
@@ -148,6 +149,15 @@ def run_case(ctx, case):
                         newv = {'application_namespace': 'newns-%d' % uniq, 'application_data': 'newdata-%d' % uniq}
                     else:
                         newv = G.attr_value_for(rng, A(name))
+                    want_followed = rng.random() < 0.25
+                    if want_followed and name in MULTI and n_inst and idx is not None and not (0 <= idx < n_inst):
+                        idx = rng.randrange(n_inst)
+                    if name in MULTI and n_inst and rng.random() < (0.6 if want_followed else 0.25):
+                        # a value another instance of the same object already has
+                        dup = current_value(name, objs, uid, cur, rng.randrange(n_inst))
+                        if dup is not None:
+                            newv = dup
+                            ctx.count('new_values_equal_to_an_existing_instance')
                     if rng.random() < 0.06 and version < (2, 0):
                         custom = True
                         name = 'x-custom'
@@ -228,9 +238,16 @@ def run_case(ctx, case):
                             else:
                                 expected = 'must-fail'
                     in_batch = rng.random() < 0.2
+                    followed = (not in_batch) and want_followed
                     if in_batch:
                         creator = op_register('secret', secret_data(b'c15-batch'), common_attrs(names=['c15-batch-%d-%d' % (case['hist'], uniq)]))
                         req = rig.encode_request(rig.build_request(version, [creator, op]), version)
+                    elif followed:
+                        # the attribute operation first, then an item that commits (on an object of its own), processing
+                        # continuing whatever the first item answers: what a failed call left in the session must not be
+                        # carried into the store by the next item
+                        committer = op_register('secret', secret_data(b'c15-after'), common_attrs(names=['c15-after-%d-%d' % (case['hist'], uniq)]))
+                        req = rig.encode_request(rig.build_request(version, [op, committer], error_option=E.BatchErrorContinuationOption.CONTINUE), version)
                     else:
                         req = rig.encode_request(rig.build_request(version, [op]), version)
                     rig.decode_request(req)
@@ -261,6 +278,27 @@ def run_case(ctx, case):
                 elif in_batch:
                     before = snapshot(srv, uids)
                     continue
+                if followed:
+                    if res_full.error is not None or len(res_full.items) != 2:
+                        before = snapshot(srv, uids)
+                        continue
+                    ctx.count('calls_followed_by_a_committing_item')
+
+                    class _Item0(object):
+                        error = None
+                        items = [res_full.items[0]]
+
+                        def ok(self, i=0):
+                            return res_full.ok(0)
+
+                        def brief(self):
+                            return [res_full.brief()[0]]
+                    res = _Item0()
+                    new_uid = res_full.uid(1) if res_full.ok(1) else None
+                    if new_uid and new_uid not in uids:
+                        uids.append(new_uid)
+                        kinds[new_uid] = 'secret'
+                        before[new_uid] = {'attrs': {}, 'frozen': {}, 'get_ok': True, 'fresh': True}
                 after = snapshot(srv, uids)
                 ctx.ev()
                 ctx.count('calls_checked')
